@@ -103,6 +103,42 @@ def inline_locals(f, node, depth=0, used=None):
     return T(depth).visit(copy.deepcopy(node))
 
 
+def passthrough(prog, f, call):
+    """does the package function called here return its single argument unchanged on every returning path?
+    True / a description of the path that alters it / None (cannot tell)"""
+    callee = prog.resolve_call(f, call)
+    if callee is None:
+        return None
+    ps = callee.params()[1:] if callee.cls else callee.params()
+    if len(ps) != 1:
+        return None
+    p = ps[0]
+    if any(isinstance(n, (ast.Assign, ast.AugAssign)) and any(isinstance(x, ast.Name) and x.id == p and isinstance(x.ctx, ast.Store)
+                                                               for t in (n.targets if isinstance(n, ast.Assign) else [n.target]) for x in ast.walk(t)) for n in ast.walk(callee.node)):
+        return None
+    from .memo import _facts_at, _atomic
+    rets = returns_of(callee)
+    if not rets:
+        return None
+    for r in rets:
+        v = r.value
+        if isinstance(v, ast.Name) and v.id == p:
+            continue
+        if v is None or (isinstance(v, ast.Constant) and v.value is None):
+            atoms = []
+            for t, pol in _facts_at(callee.node, r):
+                _atomic(t, pol, atoms)
+            is_none = any(isinstance(t, ast.Compare) and len(t.ops) == 1 and isinstance(t.left, ast.Name) and t.left.id == p and isinstance(t.comparators[0], ast.Constant)
+                          and t.comparators[0].value is None and ((isinstance(t.ops[0], (ast.Is, ast.Eq)) and pol) or (isinstance(t.ops[0], (ast.IsNot, ast.NotEq)) and not pol))
+                          for t, pol in atoms)
+            if is_none:
+                continue
+            tests = [unparse(t) for t, _ in atoms]
+            return "returns None where the argument need not be None (under %s)" % (tests or "no test")
+        return None
+    return True
+
+
 def memo_forward(prog, f):
     """the wrapper computes its result once per key and keeps it: `if k not in T: T[k] = <call>` ... `return T[k]`
     -> (stored call, key expression with single-assignment locals inlined, table text) or None"""
@@ -189,6 +225,17 @@ def check_wrapper(ck, prog, rule, api_rel, api_qual, backend_key, argmap=None, a
                               slot=own_p, where=f.loc(v))
                 continue
             ok = isinstance(actual, ast.Name) and actual.id == own_p
+            if not ok and isinstance(actual, ast.Call) and len(actual.args) == 1 and not actual.keywords and isinstance(actual.args[0], ast.Name) and actual.args[0].id == own_p:
+                # the parameter goes through a checking helper first: fine if the helper hands back exactly what it was given
+                pt = passthrough(prog, f, actual)
+                if pt is True:
+                    ok = True
+                elif pt is None:
+                    raise Undecided("unrecognised shape: %s passes %s through %s, which lcsa cannot show to return its argument unchanged" % (f.qual, own_p, unparse(actual.func)), f.loc(v))
+                else:
+                    good &= ck.ob(rule, construct, False, expected="%s reaches %s unchanged" % (own_p, formal), found="%s: %s" % (unparse(actual), pt), slot=own_p, where=f.loc(v),
+                                  note="a checking helper in front of the backend must hand back the value it was given")
+                    continue
             if not ok and not any(isinstance(x, ast.Name) and x.id in own for x in ast.walk(actual)):
                 raise Undecided("unrecognised shape: argument %s of %s is computed, not forwarded" % (formal, callee.qual), f.loc(v))
             good &= ck.ob(rule, construct, ok, expected="%s -> %s" % (own_p, formal), found="%s -> %s" % (unparse(actual), formal), slot=own_p, where=f.loc(v))
